@@ -147,7 +147,7 @@ def assemble(unit_path, variant=None):
             A.emit(text, "extract", qual, lmap, p["relpath"])
             end = len(A.lines)
             A.rewrites += log
-            mode = "M4" if ann.get("seg_from") else "M3" if ann.get("slice_k") is not None else ("M2" if (ann.get("replaces") or ann.get("maploops") or ann.get("forloops") or ann.get("anyloops")) else "M1")
+            mode = "M4" if ann.get("seg_from") else "M3" if ann.get("slice_k") is not None else ("M2" if (ann.get("replaces") or ann.get("maploops") or ann.get("forloops") or ann.get("anyloops") or ann.get("findloops")) else "M1")
             if ann.get("imported_from"):
                 mode = "ASSUMED"
                 A.trusted.append(f"contract of {p['relpath']}::{qual} imported verbatim from unit {ann['imported_from']} where it is PROVED")
@@ -202,6 +202,12 @@ def assemble(unit_path, variant=None):
             ann.setdefault("forloops", {})[arg] = text
         elif name == "anyloop":
             ann.setdefault("anyloops", {})[arg] = text
+        elif name == "findloop":
+            ann.setdefault("findloops", {})[arg] = text
+        elif name == "findhit":
+            ann.setdefault("findhits", {})[arg] = text
+        elif name == "findexit":
+            ann.setdefault("findexits", {})[arg] = text
         elif name == "looptail":
             ann.setdefault("looptails", {})[arg] = text
         elif name == "loophead":
@@ -248,7 +254,7 @@ def assemble(unit_path, variant=None):
         d, rest = m.group(1), m.group(2).strip()
         if d != "use":
             flush_groups()
-        if d in ("requires", "ensures", "closure", "loop", "maploop", "forloop", "anyloop", "looptail", "loophead", "head", "tail", "params", "segtail", "before", "before_stmt", "after", "replace", "with", "decreases"):
+        if d in ("requires", "ensures", "closure", "loop", "maploop", "forloop", "anyloop", "findloop", "findhit", "findexit", "looptail", "loophead", "head", "tail", "params", "segtail", "before", "before_stmt", "after", "replace", "with", "decreases"):
             close_section()
             if pending is None:
                 raise Inconclusive(f"{unit_path}:{i+1}: //@{d} outside //@fn")
